@@ -48,6 +48,7 @@ MIN_REACH = {
     "harvester_crops_whose_results_are_all_nan": {"quick": 8, "thorough": 30},
     "harvester_crops_whose_harvester_is_chunked": {"quick": 25, "thorough": 80},
     "attempts_under_xarrays_new_combine_defaults": {"quick": 100, "thorough": 350},
+    "farmers_whose_file_is_named_by_a_path_object": {"quick": 30, "thorough": 100},
 }
 TIME_BUDGET = {"quick": 400, "thorough": 3400}
 
@@ -314,6 +315,11 @@ def _run_case(ctx, case):
                     farmer = runner
                 elif kind == "harvester":
                     data_file = os.path.join(tmp, "hdata.h5")
+                    if case["idx"] % 6 == 4:
+                        # the harvester's file is named by a pathlib.Path
+                        import pathlib
+                        data_file = pathlib.Path(data_file)
+                        ctx.count("farmers_whose_file_is_named_by_a_path_object")
                     hkw = {}
                     if case["idx"] % 4 == 2:
                         # the harvester opens its file in chunks (lazily, through dask): the same promises
@@ -333,6 +339,10 @@ def _run_case(ctx, case):
                         pre._full_ds.close()
                 else:
                     data_file = os.path.join(tmp, "sdata.pkl")
+                    if case["idx"] % 6 == 4:
+                        import pathlib
+                        data_file = pathlib.Path(data_file)
+                        ctx.count("farmers_whose_file_is_named_by_a_path_object")
                     farmer = xyzpy.Sampler(runner, data_name=data_file, default_combos={"a": avals})
                     np.random.seed(case["idx"])
                     if case["idx"] % 2:
